@@ -110,8 +110,13 @@ def run_case(case, acc, order):
                         with core.time_limit(5):
                             ids_arg = ids if ids is None else [list(ids), np.array(ids, dtype=np.int64),
                                                                tuple(ids)][(b + half + sym) % 3]
-                            got = correlograms(times, labels_arr, cluster_ids=ids_arg, sample_rate=rate,
-                                               bin_size=bin_size, window_size=window, symmetrize=sym)
+                            ckw = {} if sym else {'symmetrize': False}     # True is the default
+                            if ids_arg is not None:
+                                ckw['cluster_ids'] = ids_arg
+                            if rate != 1.0:
+                                ckw['sample_rate'] = rate                   # 1.0 is the default
+                            got = correlograms(times, labels_arr, bin_size=bin_size, window_size=window,
+                                               **ckw)
                     except (Exception, core.CaseTimeout) as e:
                         got = e
                     ok = isinstance(got, np.ndarray) and arr_equal(got, exp, dtype=False)
